@@ -70,7 +70,9 @@ def finish (d : DS) (c : Conn) (res : String) : DS × String :=
             s!" sm {bt c.sm.support}{bt c.sm.enabled}{bt c.sm.canResume}{bt c.sm.resume}{bt c.sm.rSent} s{c.sm.sentNr.toNat} h{c.sm.handledNr.toNat} q{q}"
           else " sm none"
         s!"st {stLetter c} neg {bt c.negotiated} sec {bt (isSecured c)} q {c.queue.length}{smPart}"
-    ({ d with c := { c with tx := [], evs := [] }, pend := [] }, s!"= {res} | tx {tx} | ev {ev} | {tail}")
+    -- an event outside the parser protocol (hypothesis H-parser-protocol) shows as a disagreement
+    let res := if c.protoViol ≠ 0 then s!"PARSER-PROTOCOL-VIOLATED {res}" else res
+    ({ d with c := { c with tx := [], evs := [], protoViol := 0 }, pend := [] }, s!"= {res} | tx {tx} | ev {ev} | {tail}")
 
 /-- classification of a user payload the way the harness classifies what it reads off the wire:
     `<name id='ID'/>`, `<name/>`, anything else = raw bytes -/
@@ -128,6 +130,10 @@ def step (d : DS) (line : String) : DS × String :=
     | ["connect"] =>
       let (c1, rc) := if d.ctypeTok = "k" then connectComponent c
         else if d.ctypeTok = "r" then connectRaw c else connectClient c
+      finish d c1 s!"rc {rc}"
+    | ["connect", k] =>
+      let (c1, rc) := if k = "k" then connectComponent c
+        else if k = "r" then connectRaw c else connectClient c
       finish d c1 s!"rc {rc}"
     | ["run"] => finish d (runOnce c .none) "ran"
     | ["rx", h] =>
